@@ -363,6 +363,10 @@ def check_c03(ix, prop="C03"):
     for inv, r in ix.inv_return.items():
         if r["outcome"] == "PENDING":
             out.extend(_parking(ix, inv, r, prop))
+            done = [e for e in ix.kinds["handler-done"] if e["i"] == inv]
+            if done and done[-1]["how"] not in SUSPEND:
+                out.append(V(prop, "pending-without-suspension", f"invocation {inv} reported PENDING although user code did not suspend "
+                             f"(it ended with {done[-1]['how']})", seq=r["s"]))
         elif r["outcome"] == "SUCCEEDED":
             info = ix.invs.get(inv) or {}
             ret = info.get("ret") or {}
@@ -429,6 +433,8 @@ def _parking(ix, inv, r, prop):
                 ok = True
             elif typ in ("WAIT", "CALLBACK", "CHAINED_INVOKE") and st == "STARTED":
                 ok = True
+            elif typ == "CHAINED_INVOKE" and st == "PENDING":
+                ok = True  # accepted, not running yet
         if not ok:
             out.append(V(prop, "pending-not-parked", f"invocation {inv} returned PENDING but {pos} ({op}) suspended with backend "
                          f"state {seen}: no registered wake source", pos=pos, seq=s_ret))
@@ -736,15 +742,25 @@ def check_c10(ix):
             oid = ix.pos_id(e["pos"])
             if oid is None:
                 continue
-            mine = [c for c in tests if c["arg"] == oid and c["t"] == e["t"] and c["i"] == e["i"] and c["s"] < e["s"]]
-            if not mine:
-                continue
-            s_chk = mine[-1]["s"]
             anc, cur, n = set(), (ix.info.get(oid) or {}).get("parent"), 0
             while cur and n < 64:
                 anc.add(cur)
                 cur = (ix.info.get(cur) or {}).get("parent")
                 n += 1
+            # (a) the durable call itself BEGAN after the hand-over: whatever the SDK tests or does not test, the function of
+            # an orphan must not be entered (a new operation is refused its START, an existing one fails the orphan test)
+            begun = [b for b in ix.kinds["call-begin"] if b["i"] == e["i"] and b["pos"] == e["pos"] and b["t"] == e["t"] and b["s"] < e["s"]]
+            hit = next((m for m in marks if begun and m["i"] == e["i"] and m["arg"] in anc and m["s"] < begun[-1]["s"]), None)
+            if hit is not None:
+                out.append(V("C10", "orphan-function-ran", f"user function of {e['pos']} entered at seq {e['s']} for a durable call begun "
+                             f"(seq {begun[-1]['s']}) after the completion of an enclosing context had been handed over (seq {hit['s']})",
+                             pos=e["pos"], seq=e["s"]))
+                continue
+            # (b) the call began earlier, but this thread's last orphan test for the operation began after the hand-over
+            mine = [c for c in tests if c["arg"] == oid and c["t"] == e["t"] and c["i"] == e["i"] and c["s"] < e["s"]]
+            if not mine:
+                continue
+            s_chk = mine[-1]["s"]
             for m in marks:
                 if m["i"] == e["i"] and m["arg"] in anc and m["s"] < s_chk:
                     out.append(V("C10", "orphan-test-passed-after-completion", f"user function of {e['pos']} entered at seq {e['s']} although "
